@@ -123,7 +123,9 @@ func (s *stuckRWC) Write(p []byte) (int, error) {
 }
 func (s *stuckRWC) Close() error { s.co.Do(func() { close(s.closed) }); return nil }
 
-func staleWriterScenario(rounds int) (string, string) {
+// With failedPing, a keep-alive Ping with a short deadline gives up first while the write holds the frame lock: a
+// lock attempt that fails must leave the lock with its holder, or CloseNow hands the writer's buffers to the pool.
+func staleWriterScenario(rounds int, failedPing bool) (string, string) {
 	// sync.Pool hands an object back to the P that released it: one P makes the reuse that the
 	// scenario is about certain instead of likely
 	defer runtime.GOMAXPROCS(runtime.GOMAXPROCS(1))
@@ -145,6 +147,14 @@ func staleWriterScenario(rounds int) (string, string) {
 		case <-st.wrote:
 		case <-time.After(2 * time.Second):
 			return "", "" // the write did not reach the transport; nothing to test
+		}
+		if failedPing {
+			pctx, pcancel := context.WithTimeout(context.Background(), 30*time.Millisecond)
+			err := a.Ping(pctx)
+			pcancel()
+			if err == nil {
+				return "ping-succeeded-on-stalled-transport", "Ping returned nil while the transport accepted nothing"
+			}
 		}
 		cdone := make(chan struct{})
 		go func() { defer close(cdone); a.CloseNow() }()
